@@ -58,6 +58,9 @@ CONFIGS = {
     "alloc_plain": dict(tlsh=["std", "easy-functions"], sim=["alloc_world"]),
     "alloc_embedded": dict(tlsh=["std", "easy-functions", "opt-embedded-default", "opt-low-memory-buckets"], sim=["alloc_world"]),
     "alloc_dbg": dict(tlsh=BASE_FEATURES, sim=["alloc_world"], profile={"opt-level": 2, "debug-assertions": "true", "overflow-checks": "true"}),
+    # statically selected CPU tiers (the SSSE3 / SSE4.1 and SSE2 kernels never run on this AVX2 host otherwise)
+    "alloc_sse41": dict(tlsh=["std", "easy-functions", "opt-default", "simd"], sim=["alloc_world"], rustflags="-C target-feature=+sse4.1,+ssse3"),
+    "alloc_sse2": dict(tlsh=["std", "easy-functions", "opt-default", "simd"], sim=["alloc_world"]),
     "alloc_unsafe_minhex": dict(tlsh=BASE_FEATURES + ["unsafe", "opt-low-memory-hex-str-decode-min-table", "opt-low-memory-hex-str-encode-min-table"], sim=["alloc_world"]),
     # shuttle build: shadow manifest adds the shuttle dependency to fast-tlsh itself
     "shuttle": dict(tlsh=BASE_FEATURES, sim=["hooks", "shuttle"], rustflags="--cfg fast_tlsh_verif --cfg fast_tlsh_verif_shuttle",
@@ -668,11 +671,14 @@ MATRIX = {
     "m_static_avx2": dict(tlsh=PLAIN + ["opt-default", "simd"], rustflags="-C target-feature=+avx2"),
     "m_simd_nohex": dict(tlsh=PLAIN + ["opt-default", "simd-per-arch", "opt-simd-body-comparison", "opt-simd-bucket-aggregation", "detect-features"]),
     "m_dyn_no_tables": dict(tlsh=PLAIN + ["simd", "detect-features"]),
+    # everything the host CPU has, enabled statically (AVX2, BMI1/2, FMA, POPCNT, ...): target features beyond the named tiers
+    "m_native": dict(tlsh=PLAIN + ["opt-default", "simd"], rustflags="-C target-cpu=native"),
+    "m_v2_default": dict(tlsh=BASE_FEATURES, rustflags="-C target-cpu=x86-64-v2"),
 }
 for _k, _v in MATRIX.items():
     CONFIGS[_k] = dict(tlsh=_v["tlsh"], sim=[], rustflags=_v.get("rustflags", ""))
 MATRIX_QUICK = ["m_plain", "m_default", "m_unsafe", "m_embedded", "m_static_sse41", "m_dec_half", "m_dec_quarter", "m_enc_half", "m_static_sse2",
-                "m_simd_nohex", "m_dyn_no_tables"]
+                "m_simd_nohex", "m_dyn_no_tables", "m_static_avx2", "m_native", "m_v2_default"]
 
 
 def transcript_of(ctx, binary, seed, count):
@@ -721,8 +727,9 @@ def matrix_compare(ctx, vd, keys, count):
             vd.add_violation(k, "c07matrix", {"class": "build-differs:%s" % k, "index": i, "engine": "matrix",
                                               "detail": "op #%d %s: build %s gives `%s`, the other %d build(s) (%s) give `%s`" % (i, opj, k, got, len(major), ",".join(major), want),
                                               "history": {"op_index": i, "op": json.loads(opj) if opj else None, "build": k, "reference_build": other,
-                                                          "features": CONFIGS[k]["tlsh"], "rustflags": CONFIGS[k].get("rustflags", ""),
-                                                          "reference_features": CONFIGS[other]["tlsh"], "reference_rustflags": CONFIGS[other].get("rustflags", "")}})
+                                                          "features": CONFIGS[k]["tlsh"], "rustflags": CONFIGS[k].get("rustflags", ""), "profile": CONFIGS[k].get("profile"),
+                                                          "reference_features": CONFIGS[other]["tlsh"], "reference_rustflags": CONFIGS[other].get("rustflags", ""),
+                                                          "reference_profile": CONFIGS[other].get("profile")}})
     ctx.log("matrix: %d builds x %d ops in %.1fs, %d differing builds" % (len(keys), count, time.time() - t, nviol))
     vd.reports.append(("matrix", {"scenario": "c07matrix", "evaluations": count * len(keys), "distinct": distinct, "distinct_nontrivial": distinct,
                                   "rule": "build matrix: the same seeded op sequence run by one probe binary per build; distinct = distinct transcript lines of the reference build",
@@ -784,6 +791,8 @@ def check_C07(ctx, tier, seed):
         hooked_bin, shuttle_bin = ex.map(lambda k: try_build(ctx, k), ["hooked", "shuttle"])
     if hooked_bin:
         matrix_keys = matrix_keys + ["hooked"]
+    # the build *profile* is a configuration, too: the default features with debug assertions and overflow checks
+    matrix_keys = matrix_keys + ["dbg"]
     bins = build_many(ctx, matrix_keys)
     degraded = []
     # (a) simulated-CPU sweep
@@ -820,7 +829,9 @@ def check_C07(ctx, tier, seed):
         if "detect-features" in feats and "std" not in feats:
             feats.append("std")
         k = "m_rand_%d" % i
-        CONFIGS[k] = dict(tlsh=feats, sim=[], rustflags=rnd.choice(["", "", "-C target-feature=+sse4.1,+ssse3", "-C target-feature=+avx2"]))
+        CONFIGS[k] = dict(tlsh=feats, sim=[], rustflags=rnd.choice(["", "", "-C target-feature=+sse4.1,+ssse3", "-C target-feature=+avx2", "-C target-cpu=native", "-C target-cpu=x86-64-v3"]))
+        if rnd.random() < 0.34:
+            CONFIGS[k]["profile"] = {"opt-level": rnd.choice([0, 1, 2, "\"s\""]), "debug-assertions": rnd.choice(["true", "false"]), "overflow-checks": "true"}
         extra.append(k)
     matrix_compare(ctx, vd, ["m_plain"] + extra, 20_000 if quick else 200_000)
     vd.extra["random_feature_sets"] = {k: {"features": CONFIGS[k]["tlsh"], "rustflags": CONFIGS[k]["rustflags"]} for k in extra}
@@ -909,7 +920,7 @@ def alloc_world(ctx, vd, config, binary, procs, per_proc, hard):
                                                                          sum(r.get("violation_count", 0) for r in reps)))
 
 
-ALLOC_CONFIGS = ["alloc_default", "alloc_plain", "alloc_embedded", "alloc_unsafe_minhex", "alloc_dbg"]
+ALLOC_CONFIGS = ["alloc_default", "alloc_plain", "alloc_embedded", "alloc_unsafe_minhex", "alloc_dbg", "alloc_sse41", "alloc_sse2"]
 
 
 def check_C18(ctx, tier, seed):
@@ -1226,8 +1237,12 @@ def replay(ctx, pid, path):
         h = doc["history"]
         if h["build"] not in CONFIGS:
             CONFIGS[h["build"]] = dict(tlsh=h["features"], sim=[], rustflags=h.get("rustflags", ""))
+            if h.get("profile"):
+                CONFIGS[h["build"]]["profile"] = h["profile"]
         if h["reference_build"] not in CONFIGS:
             CONFIGS[h["reference_build"]] = dict(tlsh=h.get("reference_features", PLAIN), sim=[], rustflags=h.get("reference_rustflags", ""))
+            if h.get("reference_profile"):
+                CONFIGS[h["reference_build"]]["profile"] = h["reference_profile"]
         bins = build_many(ctx, [h["reference_build"], h["build"]])
         n = int(h["op_index"]) + 1
         a, _ = transcript_of(ctx, bins[h["build"]], doc["seed"], n)
